@@ -75,6 +75,10 @@ CHECKS = {
             "Generated histories of navigation commands (all 74 names), key presses, set_navigation_node and changes of expression x NavMode x Overview x AutoZoomOut x NavVerbosity in fresh sessions; after every step the navigation id is an id of the current expression and its MathML can be retrieved; the position is the root after set_mathml; read-only commands do not move; MoveToK returns to SetPlacemarkerK; MoveLastLocation undoes the last move; the positions reached since the last set_mathml equal (as tree paths) those of the same commands in a fresh session.",
             "The optional stack-balance hook was not needed: everything is observed through the public API. The suffix model is skipped when modes were toggled before the last set_mathml (NavMode persists by design).",
             "DESIGN.md 3/C11"),
+    "C09": ("property-based testing: generated expressions with planted author ids (none/some/all/duplicated/hostile characters) and follow-up speech, navigation and cursor-routing calls; invariants over the returned MathML and every id handed out later",
+            "Generated G-struct / textbook expressions with author ids on no, some or all elements (plain, with spaces, looking like generated ids, with XML special characters, 8% with a duplicated id); every element of the returned MathML has an id, ids are distinct, an author id on a token stays on an element showing that token's text and a uniquely identifiable token keeps its id, an author id on a 2-D element stays on an element of that kind; every id in bookmark marks (SSML/SAPI5), get_navigation_mathml_id after moves and get_navigation_node_from_braille_position is an id of the returned MathML.",
+            "Id migration is not judged when the author's ids are themselves ambiguous (duplicates): only distinctness is. Content inside annotation elements and mphantom is not displayed and is not tracked.",
+            "DESIGN.md 3/C09"),
 }
 
 NOT_YET = "check not built yet in this round (machinery in progress; see DESIGN.md section 7 build order)"
